@@ -148,14 +148,18 @@ func (c *copier) prepareTargetDir(srcFollowed, src, destPath string, copyDirCont
 		return "", nil, err
 	}
 
-	fiDest, err := os.Stat(destPath)
+	// destPath was resolved inside the destination root by the caller: a symlink found there now was
+	// put there by an earlier match of a wildcard source and must not be followed
+	fiDest, err := os.Lstat(destPath)
 	if err != nil {
 		if !os.IsNotExist(err) {
 			return "", nil, errors.Wrap(err, "failed to lstat destination path")
 		}
 	}
 
-	if (!copyDirContents && fiSrc.IsDir() && fiDest != nil) || (!fiSrc.IsDir() && fiDest != nil && fiDest.IsDir()) {
+	// a symlink is not a container to copy into: the source meets it as it meets any other non-directory
+	destIsLink := fiDest != nil && fiDest.Mode()&os.ModeSymlink != 0
+	if !destIsLink && ((!copyDirContents && fiSrc.IsDir() && fiDest != nil) || (!fiSrc.IsDir() && fiDest != nil && fiDest.IsDir())) {
 		// the name of the source as seen from inside its root: "..", "a/.." and the like stay at the
 		// root and must not become a ".." component of the destination path
 		destPath = filepath.Join(destPath, filepath.Base(filepath.Join(string(filepath.Separator), src)))
